@@ -22,14 +22,15 @@
    CURRENT data at a y-scale that is the scale of the last full recomputation
    or at most factor times it, for nth_neighbors arbitrary (window / frame
    lemma), along every legal history.
+   (6) C01_combined_interp: the interpolation rule for pieces cut by pending
+   points and "infinite only where no evaluated point exists on one side".
    NOT proved (decided by the correspondence and the from-scratch oracle only,
    hence C01 stays partly `_partial`): the lower bound "scale >= scale of the
    last recomputation" (needs monotonicity of the bounding box in an ordered
-   field), the interpolation VALUES of intervals cut by pending points (their
-   KEYS are proved), and the ghost-free lower bound; the batch path of tell_many IS covered
+   field), and C01_combined_interp for histories with batched tells; the batch path of tell_many IS covered
    (Proofs/L1DBatch.v: it re-establishes all invariants from scratch). *)
 From Coq Require Import ZArith Lia.
-From AV Require Import Base.Prelude Model.L1D Proofs.L1DOrder Proofs.L1DMaps Proofs.L1DStruct Proofs.L1DLoss Proofs.L1DValues Proofs.L1DBatch Proofs.L1DProofs.
+From AV Require Import Base.Prelude Model.L1D Proofs.L1DOrder Proofs.L1DMaps Proofs.L1DStruct Proofs.L1DLoss Proofs.L1DValues Proofs.L1DBatch Proofs.L1DCombined Proofs.L1DProofs.
 
 Section C01.
   Variable num : Type.
@@ -93,6 +94,26 @@ Section C01.
     exact (@reported_loss num sub mul div ltb eqb zero one inf is_nan is_inf round12 L P OL s HI HV).
   Qed.
 
+  (* the second sentence of the property: for every consecutive pair k of
+     evaluated-or-pending points, the expected loss stored for k is
+     EITHER the loss v stored for the evaluated interval (a, b) that encloses
+       k, in proportion to k's width, (q - p) * v / (b - a) -- or v itself
+       when k is the whole interval and the value was copied verbatim,
+     OR infinite, and then there is no evaluated point at or left of k, or
+       none at or right of k                                     ([COK]).
+     Histories with batched tell_many are not covered by this theorem
+     ([L1DStruct.legal]); for them the correspondence and the oracle decide. *)
+  Theorem C01_combined_interp : OrdLaws ltb eqb -> forall h,
+    @L1DStruct.legal num add sub mul div ltb eqb zero one inf neg_inf is_nan is_inf round12 of_nat L P init h = true ->
+    forall k val, adj ltb (nbc (run init h)) k -> lget eqb k (losc (run init h)) = Some val ->
+      COK sub mul div ltb eqb inf (nb (run init h)) (los (run init h)) k val.
+  Proof.
+    intros OL h Hl.
+    exact (@combined_inv num add sub mul div ltb eqb zero one inf neg_inf is_nan is_inf round12 of_nat L P OL h init
+             (sinv_init add sub mul div ltb eqb zero inf neg_inf is_nan is_inf round12 P)
+             (@cinv_init num sub mul div ltb eqb zero inf neg_inf P) Hl).
+  Qed.
+
   Theorem C01_loss_is_max : OrdLaws ltb eqb -> forall (s : st num) (real : bool),
     let table := if real then los s else losc s in
     (missing_bounds eqb P s <> [] \/ table = [] -> loss s real = inf) /\
@@ -154,6 +175,7 @@ Qed.
 Print Assumptions C01_structure_inv.
 Print Assumptions C01_values_inv.
 Print Assumptions C01_reported_loss.
+Print Assumptions C01_combined_interp.
 Print Assumptions C01_loss_is_max.
 Print Assumptions C01_sweep_resets_all.
 Print Assumptions C01_discard_resets.
